@@ -437,7 +437,7 @@ def run(ctx):
     # 4 classify ----------------------------------------------------------------------------------------------------------
     by_shape = {}
     if disturbed:
-        tcases = [(cid, "xml", 1, "t", meta[cid][4]) for cid, _ in disturbed[:400]]
+        tcases = [(cid, "xml", 1, "t", meta[cid][4]) for cid, _ in disturbed]
         tres, _ = C08.run_batch(exe08, tcases)
         for cid, what in disturbed:
             tl = tres.get(cid, [])
